@@ -57,6 +57,10 @@ def uses(e, k):
     if e[0] == 'leaf': return e[1] == k
     if e[0] == 'const': return False
     return any(uses(x, k) for x in e[2:])
+def has_mixed_literal(e):
+    if e[0] == 'const': return len(e) > 2
+    if e[0] == 'leaf': return False
+    return any(has_mixed_literal(x) for x in e[2:])
 def ops_of(e):
     if e[0] in ('leaf', 'const'): return set()
     s = {(e[0], e[1])}
@@ -65,7 +69,7 @@ def ops_of(e):
 
 def fastor_expr(e, T):
     if e[0] == 'leaf': return 'r' if e[1] == 0 else 't%d' % e[1]
-    if e[0] == 'const': return '(%s)(%d)' % (T, e[1])
+    if e[0] == 'const': return e[2] if len(e) > 2 else '(%s)(%d)' % (T, e[1])      # e[2]: a literal of another arithmetic type
     if e[0] == 'un':
         a = fastor_expr(e[2], T)
         return {0: '(-%s)', 1: 'abs(%s)', 2: '(!%s)', 4: 'sqrt(%s)', 5: 'floor(%s)', 6: 'ceil(%s)', 7: 'round(%s)', 8: 'trunc(%s)'}[e[1]] % a
@@ -77,7 +81,7 @@ def scalar_expr(e, ty):
     """the same C++ scalar operations per element; integer arithmetic through unsigned wrap helpers (no UB)"""
     T = TY[ty][0]; isf = TY[ty][2]
     if e[0] == 'leaf': return 'd0' if e[1] == 0 else 't%d.data()[i]' % e[1]
-    if e[0] == 'const': return '(%s)(%d)' % (T, e[1])
+    if e[0] == 'const': return '((%s)(%s))' % (T, e[2]) if len(e) > 2 else '(%s)(%d)' % (T, e[1])   # the library converts the number to the element type first
     if e[0] == 'un':
         a = scalar_expr(e[2], ty)
         if e[1] == 0: return '(-%s)' % a if isf else 'wneg<%s>(%s)' % (T, a)
@@ -135,6 +139,14 @@ def gen_cases(sd, tr):
                 kind = 'bool' if op >= 6 else 'arith'
                 cases.append({'id': len(cases), 'ty': ty, 'n': g.choice([35, 37, 39]), 'kind': kind, 'stream': 'frac' if (isf and op != 3 and kind == 'arith' and g.next() % 2) else 'small',
                               'aop': None, 'tree': ('bin', op, a, b), 'seed': g.next() % 100000})
+        # numbers of another arithmetic type than the element type (2.5 * Tensor<int>, 0.1 * Tensor<float>, 2.1f * Tensor<double>), on
+        # either side: the library converts the number to the element type first, in the vector body and in the scalar tail alike
+        for op in [0, 1, 2]:
+            for form in ('TN', 'NT'):
+                cv = g.choice([-3, 2, 6]); txt = ('%d.5' % cv) if not isf else (('%d.1' % cv) if ty == 'float' else ('%d.1f' % cv))
+                k = ('const', cv, txt)
+                cases.append({'id': len(cases), 'ty': ty, 'n': g.choice([35, 37, 39]), 'kind': 'arith', 'stream': 'small', 'aop': g.choice([None, 0]),
+                              'tree': ('bin', op, ('leaf', 1), k) if form == 'TN' else ('bin', op, k, ('leaf', 2)), 'seed': g.next() % 100000})
         for uop in ([0, 1] if not isf else [0, 1, 4, 5, 6, 7, 8]):
             for stream in (['small'] if not isf else ['frac', 'special']):
                 tree = ('un', uop, ('leaf', 1)) if uop != 4 else ('un', 4, ('un', 1, ('leaf', 1)))
@@ -245,6 +257,7 @@ def modelled(c):
     if c['kind'] == 'divnum' or c['stream'] in ('special', 'frac'): return False
     ops = ops_of(c['tree'])
     if ('un', 4) in ops: return False          # sqrt is not part of the Z model
+    if TY[c['ty']][2] and has_mixed_literal(c['tree']): return False      # the converted literal is not an integer
     if TY[c['ty']][2]:
         # floats: integer-valued data, exact operators only (no division, no sqrt)
         if ('bin', 3) in ops or ('un', 4) in ops or c['aop'] == 3: return False
